@@ -155,7 +155,8 @@ def handle (l : String) : String :=
       else
         let obsR := obs.map renderEvent
         let variants : List (String × Variant) :=
-          [("preFix", .preFix), ("batchFirstOnly", ⟨true, false⟩), ("atomicInsertOnly", ⟨false, true⟩), ("head", .head)]
+          [("preFix", .preFix), ("batchFirstOnly", ⟨true, false, false⟩), ("atomicInsertOnly", ⟨false, true, false⟩),
+           ("fix1", .fix1), ("head", .head)]
         let diffs := variants.map fun (nm, v) => (nm, firstDiff ((writeLog v db0 ghost0 steps).map renderEvent) obsR 0)
         let matching := (diffs.filter fun d => d.2.isNone).map (·.1)
         let (v, ltxt) :=
@@ -168,8 +169,8 @@ def handle (l : String) : String :=
         let goR := match go.splitOn " R=" with
           | [_, r] => fields r
           | _ => []
-        if m == go then m ++ "\tagree"
-        else if s!"V={v} L={ltxt}" == (go.splitOn " R=").headD "" && corresponds pr goR then go ++ "\tagree"
+        -- the variant is reported by the model only (the harness cannot tell variants apart that produce the same log)
+        if ltxt == "ok" && corresponds pr goR then m ++ "\tagree"
         else if contradicts pr goR then m ++ "\tspec-reject:image-satisfies-LocalOK-but-real-reopen-fails"
         else m ++ "\tspec-ok"
     | _ => "bad-op\tagree"
